@@ -32,7 +32,9 @@ LinCases(a) ==
       two == {<<a, p>> : p \in P} \cup {<<p, a>> : p \in P}
       three == {<<a, p, q>> : p \in {x \in P : x.s = 0}, q \in {x \in P : x.e = Len(g) \/ x.e = 0}}
       cvals == <<RTwo, R(-3, 4), RZero, ROne>>
-  IN {[op |-> "SplLin", o |-> o, share |-> sh, cs |-> SubSeq(cvals, 1, Len(ss)), ss |-> ss] : ss \in {<<a>>} \cup two \cup three, sh \in {0, 1}}
+      \* a zero coefficient first, in the middle and last
+      cvs == {cvals, <<RZero, RTwo, R(-3, 4), ROne>>, <<RTwo, RZero, ROne, ROne>>}
+  IN {[op |-> "SplLin", o |-> o, share |-> sh, cs |-> SubSeq(cv, 1, Len(ss)), ss |-> ss] : ss \in {<<a>>} \cup two \cup three, sh \in {0, 1}, cv \in cvs}
      \* count mismatches: 0..3 coefficients for 0..2 splines (C11)
      \cup {[op |-> "SplLin", o |-> o, share |-> 1, cs |-> SubSeq(cvals, 1, nc), ss |-> SubSeq(<<a, a, a>>, 1, ns)] : nc \in 0..3, ns \in 0..2}
      \* the odd grid first / middle / last (C08)
